@@ -125,8 +125,11 @@ OF_NOTE = ("The whole library (5 packages, 130 kinds, Len/MarshalBinary/Unmarsha
            "OFV.Spec transcribed from memory (no specification documents offline). Theorem coverage of the property is partial where stated in 'level_text'.")
 ENC_RULE = ("generic reflection harness: 'api' = random VALID API histories (every constructor, adder, setter with in-range arguments; match fields of all "
             "40 kinds; all standard and Nicira actions incl. nested conntrack, NAT setter subsets, learn specs; instructions; buckets; flow-mod/group-mod "
-            "with every command; packet-out; port-mod; set-config; multipart requests; Nicira/ONF vendor messages; bundle-add wrapping any message), "
-            "'enc'/'prog' = literal values and constructor calls with edge arguments (correspondence only). Non-trivial = the encoder produced bytes.")
+            "with every command; packet-out; port-mod; set-config; multipart requests; Nicira/ONF vendor messages; bundle-add wrapping any message; "
+            "conntrack builder methods in random order with repetition; histories preceded by an unrelated hello of another protocol version; ttl actions and "
+            "meter instructions), 'enc'/'prog' = literal values and constructor calls with edge arguments (correspondence only), 'embed' = children-intact check on "
+            "API-built values and on self-consistent packet literals (IPv6 with 8..2048-byte routing / hop-by-hop headers), 'embedw' = the same on packet headers "
+            "decoded from the independent encoder's wire images. Non-trivial = the encoder produced bytes.")
 PROPS["C01"] = {
     "modules": ["C01", "C01b"],
     "families": ["OF"], "ops": "api,apix,enc,prog", "gen_deps": [],
